@@ -49,11 +49,15 @@ CHECKS = {
  "C20": dict(technique="Lean 4 proof that every slot CgreenVector touches is inside the allocation and that it refines a list, for every history and growth step + ASan/UBSan correspondence and name/depth/count sweeps under every reporter",
    text="Theorems C20_vector_in_bounds, C20_vector_refines (add_spec, remove_spec, get_spec, step_safe) and the F07 witness (Props/C20.lean); tie: vector histories around step-1/step/step+1 (step read from src/vector.c) with removals at head/middle/tail and illegal positions run on the real vector.c under ASan and are compared with the model; suite/test names of 1-5000 characters, nesting to 120-300 levels and step+-1 tests per suite run under all six reporters in a sanitizer build.",
    ref="§6 C20"),
+ "C16": dict(technique="Lean 4 proof about the tokenizer on every spelling of every argument list + tokenizer differential (ASan) + a generated translation unit compiled through the real preprocessor",
+   text="Theorems C16_tokens, C16_count, C16_bind_positions, C16_bind_unique, C16_absent and the F26 witness (Props/C16.lean): for every argument list of good identifiers and every string whose non-blank characters are that list, the names, double markers and argument count are right; tie: generated spellings (arity 0-12 and 20/40/63, blanks/tabs/newlines, box_double wrapping, identifiers that are prefixes/suffixes of one another) run through the real tokenizer under ASan, and generated mock functions of arity 0-8 with when()/capture/absent-name clauses at every position are compiled and run.",
+   ref="§6 C16"),
 }
 MOCK_NOTE = ("Trusted: Lean kernel, harness/mock_ops.c and the CGREEN_VERIF queue-dump hook, the generators in harness/mock_checks.py. Modelled, not verified: parameter "
              "constraints are integer eq/ne/lt/gt clauses on up to three parameters, return values are integers; side effects, content setters, "
              "capture and double clauses are covered by C12/C15/C16; removal of never_expect entries is modelled as a filter (equivalent under the invariant of at most one per function).")
-NOTES = {"C20": "Trusted: Lean kernel, harness/vec_ops.c, harness/scenario_run.c, AddressSanitizer/UBSan as the judge of memory safety. Partial: the theorem covers CgreenVector (which backs expectations, constraints, parameter names and the runner's test list); fixed buffers, the breadcrumb and suite arrays are covered only by the sanitizer sweep, and memory safety of code the sweep does not reach is not shown.",
+NOTES = {"C16": "Trusted: Lean kernel, harness/tok_probe.c, the generated bind_probe translation unit, gcc's preprocessor (stringification). Modelled: identifiers contain no comma, parenthesis or white space; a trailing comma (which the preprocessor cannot produce) is outside the model.",
+         "C20": "Trusted: Lean kernel, harness/vec_ops.c, harness/scenario_run.c, AddressSanitizer/UBSan as the judge of memory safety. Partial: the theorem covers CgreenVector (which backs expectations, constraints, parameter names and the runner's test list); fixed buffers, the breadcrumb and suite arrays are covered only by the sanitizer sweep, and memory safety of code the sweep does not reach is not shown.",
          "C05": "Trusted: Lean kernel, harness/cmp_probe.c, the Python oracles. Modelled, not verified: libc strcmp/strstr/strlen/memcmp as Lean definitions (C05_begins/C05_ends carry the explicit 2^32/2^31 length guards the C's unsigned/int intermediates impose); NULL string operands are covered by the model but not driven by the probe.",
          "C15": "Trusted: Lean kernel and the Mathlib lemmas used (axioms propext, Classical.choice, Quot.sound), harness/cmp_probe.c, Python Fractions. Partial: the theorems are about exact arithmetic; IEEE-754 rounding of '-' and '+', and libm log10/pow/floor, separate the C from it by a band the check measures (known finding F27 for the exact-threshold reading).",
          "C06": MOCK_NOTE, "C07": MOCK_NOTE, "C04": RUNNER_NOTE + " C04 additionally assumes that fork() gives the child a private copy of all memory (isolation of arbitrary user memory is the kernel's).", "C13": RUNNER_NOTE + " The test program's own globals are not the framework's to reset; the theorem excludes tests that read a global another test wrote.", "C17": RUNNER_NOTE, "C01": RUNNER_NOTE, "C02": RUNNER_NOTE, "C03": RUNNER_NOTE, "C08": RUNNER_NOTE, "C18": RUNNER_NOTE}
